@@ -776,3 +776,86 @@ theorem mergeScaled_all_fail : ∀ (n : Nat), mergeScaled (List.replicate n Y.fa
   | n + 1 => by simp [List.replicate_succ, mergeScaled, mergeScaled_all_fail n]
 
 end DH.Failures
+
+namespace DH.Failures
+open DH.Dump
+
+/-! ### the storage between two evaluators -/
+
+/-- not a dict-valued objective (dict objectives are not modelled in `CBO._tell` either) -/
+def NotDict : Val → Prop
+  | .dict _ => False
+  | _ => True
+
+theorem otherObjective_stored (o : Val) (h : NotDict o) (hn : o ≠ Val.none) :
+    otherObjective (onDoneStore o).stored = .ok (some (onDoneObjective o)) := by
+  cases o with
+  | num q => rfl
+  | nonfin k => rfl
+  | str s => rfl
+  | none => exact absurd rfl hn
+  | dict d => exact absurd h (by simp [NotDict])
+  | list l =>
+    simp only [onDoneStore, onDoneObjective]
+    by_cases hany : l.any isNonFinite = true
+    · simp only [hany, if_true]; rfl
+    · simp only [hany]; rfl
+
+/-- an objective `None` is stored as `None`: the other evaluators never report the job -/
+theorem otherObjective_stored_none : otherObjective (onDoneStore Val.none).stored = .ok none := rfl
+
+theorem otherView_cons (v : Val) (r : List Val) (x : Option Val) (xs : List Val)
+    (hv : otherObjective v = .ok x) (hr : otherView r = .ok xs) :
+    otherView (v :: r) = .ok (match x with | some o => o :: xs | none => xs) := by
+  cases x <;> simp [otherView, hv, hr]
+
+/-- supported raw objectives are never `None`, never a dict -/
+theorem otherView_raw :
+    ∀ (objs : List Val), (∀ o ∈ objs, NotDict o ∧ o ≠ Val.none) →
+      otherView (objs.map (fun o => (onDoneStore o).stored)) = .ok (objs.map onDoneObjective)
+  | [], _ => rfl
+  | o :: r, h => by
+    have ih := otherView_raw r (fun x hx => h x (by simp [hx]))
+    have ho := h o (by simp)
+    have h1 := otherObjective_stored o ho.1 ho.2
+    simp only [List.map_cons]
+    rw [otherView_cons _ _ _ _ h1 ih]
+
+/-! ### the ask cache -/
+
+/-- the cache can only hold something while `_asked_since_tell` is set -/
+def CacheInv {κ β : Type} (c : AskCache κ β) : Prop := c.asked = false → c.entry = none
+
+theorem cboAsk_spec {κ β : Type} [DecidableEq κ] (c : AskCache κ β) (h : CacheInv c) (single : Bool) (key : κ)
+    (fresh refreshed : β) :
+    (cboAsk c single key fresh refreshed).2 =
+        ((if single then (if c.asked then refreshed else c.next) else fresh), false) ∧
+      (cboAsk c single key fresh refreshed).1.asked = true ∧
+      (cboAsk c single key fresh refreshed).1.next = (if c.asked then refreshed else c.next) := by
+  unfold cboAsk
+  cases ha : c.asked with
+  | true => cases single <;> simp [optReset, optAsk]
+  | false =>
+    have := h ha
+    cases single <;> simp [optAsk, this]
+
+theorem runCache_spec {κ β : Type} [DecidableEq κ] :
+    ∀ (ops : List (CacheOp κ β)) (c : AskCache κ β), CacheInv c →
+      runCache c ops = (specCache c.asked c.next ops).map (fun f => (f, false))
+  | [], _, _ => rfl
+  | .ask single key fresh refreshed :: r, c, h => by
+    have hf := cboAsk_spec c h single key fresh refreshed
+    have hinv : CacheInv (cboAsk c single key fresh refreshed).1 := by
+      intro hx; rw [hf.2.1] at hx; exact absurd hx (by simp)
+    have ih := runCache_spec r (cboAsk c single key fresh refreshed).1 hinv
+    simp only [runCache, specCache, List.map_cons]
+    rw [ih, hf.2.1, hf.2.2]
+    have : ((cboAsk c single key fresh refreshed).2.1, (cboAsk c single key fresh refreshed).2.2) =
+        ((if single then (if c.asked then refreshed else c.next) else fresh), false) := hf.1
+    simp only [Prod.mk.injEq] at this
+    rw [this.1, this.2]
+  | .tell p objs newNext :: r, c, _ => by
+    simp only [runCache, specCache]
+    exact runCache_spec r _ (by intro _; rfl)
+
+end DH.Failures
